@@ -157,6 +157,9 @@ def wellformed(loc, ctx, clause, optimized=False, parent_len=None, expect_strand
         ctx.true(clause + ":inside_parent", max(e for _, e in bl) <= parent_len, (bl, parent_len))
     if expect_strand is not None:
         ctx.eq(clause + ":strand", loc_strand(loc), expect_strand)
+    # the overlap flag of a returned location describes ITS blocks (a flag carried over from, or pre-set by, the operation that
+    # built it would disagree); blocks are sorted by start, so some pair overlaps iff some neighbouring pair does
+    ctx.eq(clause + ":is_overlapping_describes_blocks", bool(loc.is_overlapping), any(bl[i][1] > bl[i + 1][0] for i in range(len(bl) - 1)), extra=bl)
 
 
 # ----------------------------------------------------------------------------------------------
